@@ -541,6 +541,9 @@ func NewCfgDriver() *CfgDriver {
 			for _, v := range []string{"v1", "v2"} {
 				d.ops = append(d.ops, cfgOp{c, k, v, "C"})
 			}
+			if k == "a" || k == "" {
+				d.ops = append(d.ops, cfgOp{c, k, "", "C"}) // an empty value (what the integer 0 looks like) is a value too
+			}
 		}
 		d.ops = append(d.ops, cfgOp{c, "a", "v1", "S"})
 	}
@@ -655,7 +658,9 @@ func NewEstDriver(tier string) *EstDriver {
 	}
 	d.ops = append(d.ops, estOp{kind: "put", e: 0, rel: true, cid: 0, node: 0, size: 11}, estOp{kind: "put", e: 0, rel: true, cid: 1, node: 0, size: 10},
 		estOp{kind: "putNoWitness", e: 0, rel: true, cid: 0, node: 0, size: 10}, estOp{kind: "putStranger", e: 0, rel: true, cid: 0, node: 2, size: 10},
-		estOp{kind: "putUnknownContainer", e: 0, rel: true, cid: 0, node: 0, size: 10}, estOp{kind: "tick"})
+		estOp{kind: "putUnknownContainer", e: 0, rel: true, cid: 0, node: 0, size: 10}, estOp{kind: "tick"},
+		// node 3 joined with the latest tick (in the current map only), node 4 left with it (in the previous map only)
+		estOp{kind: "put", e: 0, rel: true, cid: 0, node: 3, size: 33}, estOp{kind: "put", e: 0, rel: true, cid: 0, node: 4, size: 44})
 	return d
 }
 
@@ -664,7 +669,7 @@ func (d *EstDriver) Build() *World {
 	nm, cnt := w.Contracts["netmap"].Hash, w.Contracts["container"].Hash
 	al := []neotest.Signer{w.AlphaS}
 	d.nodes, d.cids = nil, nil
-	for i := 0; i < 3; i++ {
+	for i := 0; i < 5; i++ {
 		d.nodes = append(d.nodes, w.Acct(fmt.Sprintf("sn%d", i)))
 	}
 	for i := 0; i < 2; i++ {
@@ -672,20 +677,28 @@ func (d *EstDriver) Build() *World {
 		w.Invoke(cnt, al, "put", blob, []byte("sig"), append([]byte{2}, make([]byte, 32)...), []byte("tok"))
 		d.cids = append(d.cids, cid)
 	}
-	for i := 0; i < 2; i++ {
-		info := append(append([]byte{0, 0}, d.nodes[i].Pub()...), 0xAA)
-		w.Invoke(nm, al, "addPeerIR", info)
+	info := func(i int) []byte { return append(append([]byte{0, 0}, d.nodes[i].Pub()...), 0xAA) }
+	for _, i := range []int{0, 1, 4} {
+		w.Invoke(nm, al, "addPeerIR", info(i))
 	}
-	// epoch 10: large enough for relative epochs down to cur-4, and both nodes in snapshot(1)
+	// epoch 10: large enough for relative epochs down to cur-4; nodes 0 and 1 are in every map,
+	// node 4 leaves and node 3 joins with the last tick
 	for e := int64(1); e <= 10; e++ {
+		if e == 10 {
+			w.Invoke(nm, al, "updateStateIR", int64(2), d.nodes[4].Pub())
+			w.Invoke(nm, al, "addPeerIR", info(3))
+		}
 		w.Invoke(nm, al, "newEpoch", e)
 	}
 	w.Acct("S")
 	w.Freeze()
 	return w
 }
-func (d *EstDriver) Init(*World) Model { return &kvModel{m: map[string][]string{}, epoch: 10} }
-func (d *EstDriver) NumOps() int       { return len(d.ops) }
+func (d *EstDriver) Init(*World) Model {
+	// "prev"/"cur": the members of the previous and the current network map
+	return &kvModel{m: map[string][]string{"prev": {"0", "1", "4"}, "cur": {"0", "1", "3"}}, epoch: 10}
+}
+func (d *EstDriver) NumOps() int { return len(d.ops) }
 func (d *EstDriver) abs(m *kvModel, o estOp) int64 {
 	if o.rel {
 		return m.epoch + o.e
@@ -732,7 +745,11 @@ func (d *EstDriver) Step(x *Exec, n *Node, i int) StepResult {
 			return viol("outcome", "tick failed: "+obs.Fault)
 		}
 		nm.epoch = e
+		nm.m["prev"] = append([]string{}, m.m["cur"]...) // candidates do not change here: the new map equals the current one
 		for k := range m.m {
+			if k == "prev" || k == "cur" {
+				continue
+			}
 			if ke, _, _ := parse(k); e-ke > 4 { // TotalCleanupDelta
 				delete(nm.m, k)
 			}
@@ -748,7 +765,7 @@ func (d *EstDriver) Step(x *Exec, n *Node, i int) StepResult {
 			cid = make([]byte, 32)
 		}
 		obs, nn = x.Do(n, Call{Script: Script(h, "putContainerSize", e, cid, o.size, d.nodes[o.node].Pub()), Signers: []util.Uint160{signer}, Label: d.OpName(n, i)})
-		want := o.kind == "put"
+		want := o.kind == "put" && contains(m.m["prev"], fmt.Sprint(o.node)) // nodes of the PREVIOUS epoch's map
 		if obs.Halt != want {
 			where["case"] = o.kind
 			return viol("estimation-access", fmt.Sprintf("%s: halt=%v fault=%q", d.OpName(n, i), obs.Halt, obs.Fault))
@@ -762,6 +779,9 @@ func (d *EstDriver) Step(x *Exec, n *Node, i int) StepResult {
 		}
 		// per (container, node): entries more than CleanupDelta epochs older than the new one go
 		for k := range m.m {
+			if k == "prev" || k == "cur" {
+				continue
+			}
 			if ke, kc, kn := parse(k); kc == o.cid && kn == o.node && e-ke > 3 {
 				delete(nm.m, k)
 			}
@@ -771,6 +791,9 @@ func (d *EstDriver) Step(x *Exec, n *Node, i int) StepResult {
 	// ---- all reads for all epochs the menu or the model mention ----
 	epset := map[int64]bool{0: true, 1: true, 256: true, 257: true}
 	for k := range nm.m {
+		if k == "prev" || k == "cur" {
+			continue
+		}
 		e, _, _ := parse(k)
 		epset[e] = true
 	}
@@ -792,7 +815,7 @@ func (d *EstDriver) Step(x *Exec, n *Node, i int) StepResult {
 		var wantAll []string
 		for c := range d.cids {
 			var wantEst []string
-			for nd := 0; nd < 2; nd++ {
+			for nd := 0; nd < 5; nd++ {
 				if v := nm.m[estKeyOf(e, c, nd)]; len(v) > 0 {
 					wantEst = append(wantEst, estItem(nd, v[0]))
 				}
@@ -816,6 +839,9 @@ func (d *EstDriver) Step(x *Exec, n *Node, i int) StepResult {
 		}
 		explained := func(extra string) bool {
 			for k := range nm.m {
+				if k == "prev" || k == "cur" {
+					continue
+				}
 				ke, kc, _ := parse(k)
 				if properPrefixEpoch(e, ke) && strings.Contains(extra, Hx(d.cids[kc])) {
 					return true
@@ -850,6 +876,9 @@ func (d *EstDriver) Step(x *Exec, n *Node, i int) StepResult {
 			extraOK := len(gotAll) > len(wantAll)
 			if extraOK {
 				for k := range nm.m {
+					if k == "prev" || k == "cur" {
+						continue
+					}
 					if ke, _, _ := parse(k); properPrefixEpoch(e, ke) {
 						extraOK = true
 						goto known
@@ -874,9 +903,9 @@ func (d *EstDriver) Step(x *Exec, n *Node, i int) StepResult {
 			cnt++
 		}
 	}
-	if cnt != len(nm.m) {
+	if cnt != len(nm.m)-2 {
 		where["method"] = "raw-scan"
-		return viol("cleanup-wrong", fmt.Sprintf("%d estimation records stored, model has %d (current epoch %d): %v", cnt, len(nm.m), nm.epoch, nm.m))
+		return viol("cleanup-wrong", fmt.Sprintf("%d estimation records stored, model has %d (current epoch %d): %v", cnt, len(nm.m)-2, nm.epoch, nm.m))
 	}
 	nn.M = nm
 	return StepResult{Next: nn, Outcome: "HALT", Changed: true, Soft: dedupSoft(soft)}
